@@ -18,6 +18,7 @@ PROPS = {
     "C14": {
         "corr": [("schema", {"quick": 1200, "thorough": 25000}), ("flagcli", {"quick": 1, "thorough": 1})],
         "trusted_base": [
+            'command-line glue: schema-violating values through `helm install`, `helm upgrade --install` and `helm upgrade` are driven by `flagcli` on one fixed chart (integer with minimum); which flag feeds SkipSchemaValidation is a regenerated fact',
             "the validator of one schema is a parameter of the gate theorems; the santhosh-tekuri/jsonschema library is compared with an independent Lean evaluator on the generated schema family only (type, required, enum, numeric bounds, nested properties, additionalProperties:false); $ref, formats, patterns etc. are outside the family",
         ],
         "assumptions": ["'nothing is sent to the cluster or stored' on rejection is checked for the dry-run install path and for real upgrades over the simulated API server (every carry-over mode of the values); the ordering gate-before-writes of the real install is part of the action model (C06/C07)"],
@@ -75,6 +76,7 @@ PROPS = {
     "C20": {
         "corr": [("crash", {"quick": 500, "thorough": 20000}), ("strvals", {"quick": 1500, "thorough": 30000}), ("storage", {"quick": 300, "thorough": 5000}), ("index", {"quick": 400, "thorough": 8000}), ("manifests", {"quick": 300, "thorough": 6000}), ("recursion", {"quick": 120, "thorough": 2500}), ("templatecli", {"quick": 60, "thorough": 600})],
         "trusted_base": [
+            '`templatecli`: `helm template` flag combinations in child processes (a panic or fatal error kills the child and is reported); post-renderers and --output-dir are not in the matrix',
             "template recursion: the guard of include/tpl (a counter per template name and one for tpl, shared by every closure of a render) is modelled as a call tree over finitely many counters with the Go stack as fuel; text/template itself, what templates print besides their calls, and `define`s made inside tpl texts are outside the model; the limit and the sharing of the counters are regenerated from engine.go",
             "entry points whose parsing is a library (YAML, JSON, tar/gzip, OpenPGP, text/template, jsonschema) have no Lean model: for them the correspondence is robustness testing under recover + watchdog, labelled so; modelled panic sites: strvals type assertions (with their recover), Secrets/ConfigMaps Get on undecodable records, nil index entries, import-values type assertions",
         ],
@@ -98,6 +100,7 @@ PROPS = {
         "corr": [("actions", {"quick": 800, "thorough": 20000}), ("kube", {"quick": 800, "thorough": 15000}), ("flagcli", {"quick": 1, "thorough": 1})],
         "also": ["C01:model:", "C02:model:"],
         "trusted_base": [
+            'command-line glue: `flagcli` runs the real helm commands with the real kube.Client against the simulated API server over HTTP with --wait=legacy; the watcher wait strategy (the default under --atomic) needs a watch stream the simulated server does not offer and is not driven; the field copying between `helm upgrade --install` and its install, and between a failed atomic operation and its repair, is tied by regenerated assignment tables (atomic_glue_forwards_flags)',
             "same model and harness as C01 (ledger model of install/upgrade/rollback/uninstall with a fault plan); containment is monitored on the implementation for every failed operation whose only fault is cluster-side; the cluster side (cleanup-on-fail, the automatic rollback of --atomic) is the cluster model of C02 (upgradeFull) compared with real failed upgrades over the simulated API server",
         ],
         "assumptions": ["a failure = one cluster-side phase failing (or the process dying there) with release storage itself working; storage-write failures are C01's finding success-with-storage-write-failure"],
